@@ -9,6 +9,10 @@ import (
 	"bytes"
 	"encoding/json"
 	"fmt"
+	"github.com/go-logr/logr"
+	"github.com/wrgl/wrgl/pkg/ingest"
+	"github.com/wrgl/wrgl/pkg/sorter"
+	"io"
 	"net/http"
 	"os"
 	"path/filepath"
@@ -21,24 +25,24 @@ import (
 )
 
 type NetOp struct {
-	Node    string `json:"node"` // L | L2 | R
-	Op      string `json:"op"`   // commit | fetch | push | pull | merge | rtag | leftover | pullall (pull --all) | pushall (push --all)
-	Branch  string `json:"branch,omitempty"`
-	Variant int    `json:"variant,omitempty"`
-	Force   bool   `json:"force,omitempty"`
-	Plus    bool   `json:"plus,omitempty"` // per-refspec '+'
-	Depth   int    `json:"depth,omitempty"`
-	FF      string `json:"ff,omitempty"` // "", "ff", "no-ff", "ff-only"
-	Skew    int    `json:"skew,omitempty"` // hours added to the node clock before the op (may be negative)
-	Other   string `json:"other,omitempty"`
-	Specs   []NetSpec `json:"specs,omitempty"` // fetch / push: explicit refspecs
-	Mirror  bool      `json:"mirror,omitempty"` // push --mirror
-	Form    string    `json:"form,omitempty"`   // merge: how BRANCH is spelled: "", heads, refs, short (last path segment), peel (B^), tilde0 (B~0)
-	SQLFail int       `json:"sql_fail,omitempty"` // the n-th SQL statement issued during the operation (any node's ref store) fails
-	Upstream   bool   `json:"upstream,omitempty"`    // push / pull: --set-upstream (makes the branch eligible for pullall / pushall)
-	ReqFault   *NetFault `json:"req_fault,omitempty"` // a network fault addressed relative to this operation: its At-th request
-	StoreFault *Fault `json:"store_fault,omitempty"` // an object-store operation fails during the operation ...
-	FaultOn    string `json:"fault_on,omitempty"`    // ... on the node running it ("", "self") or on the remote ("R")
+	Node       string    `json:"node"` // L | L2 | R
+	Op         string    `json:"op"`   // commit | fetch | push | pull | merge | rtag | leftover | pullall (pull --all) | pushall (push --all)
+	Branch     string    `json:"branch,omitempty"`
+	Variant    int       `json:"variant,omitempty"`
+	Force      bool      `json:"force,omitempty"`
+	Plus       bool      `json:"plus,omitempty"` // per-refspec '+'
+	Depth      int       `json:"depth,omitempty"`
+	FF         string    `json:"ff,omitempty"`   // "", "ff", "no-ff", "ff-only"
+	Skew       int       `json:"skew,omitempty"` // hours added to the node clock before the op (may be negative)
+	Other      string    `json:"other,omitempty"`
+	Specs      []NetSpec `json:"specs,omitempty"`       // fetch / push: explicit refspecs
+	Mirror     bool      `json:"mirror,omitempty"`      // push --mirror
+	Form       string    `json:"form,omitempty"`        // merge: how BRANCH is spelled: "", heads, refs, short (last path segment), peel (B^), tilde0 (B~0)
+	SQLFail    int       `json:"sql_fail,omitempty"`    // the n-th SQL statement issued during the operation (any node's ref store) fails
+	Upstream   bool      `json:"upstream,omitempty"`    // push / pull: --set-upstream (makes the branch eligible for pullall / pushall)
+	ReqFault   *NetFault `json:"req_fault,omitempty"`   // a network fault addressed relative to this operation: its At-th request
+	StoreFault *Fault    `json:"store_fault,omitempty"` // an object-store operation fails during the operation ...
+	FaultOn    string    `json:"fault_on,omitempty"`    // ... on the node running it ("", "self") or on the remote ("R")
 }
 
 type NetSpec struct {
@@ -172,6 +176,13 @@ func genNetPlan(r *Rand, tier string, focus string, faults bool) NetPlan {
 				p.Ops = append(p.Ops, NetOp{Node: "L", Op: "fetch", Force: r.Chance(0.3)})
 				p.Ops = append(p.Ops, NetOp{Node: "L", Op: "push", Branch: b})
 			}
+			continue
+		}
+		if focus == "C09" && !faults && i == 0 && r.Chance(0.025) {
+			// more tables in one push than one table-negotiation round trip offers (256)
+			b := Pick(r, netBranches)
+			cl := Pick(r, []string{"L", "L2"})
+			p.Ops = append(p.Ops, NetOp{Node: cl, Op: "bigchain", Branch: b, Variant: Pick(r, []int{257, 300, 520})}, NetOp{Node: cl, Op: "push", Branch: b, Force: true})
 			continue
 		}
 		if focus == "C09" && r.Chance(0.08) {
@@ -679,6 +690,52 @@ func execNet(t *testing.T, raw json.RawMessage, res *Result, focus string) {
 			if planted > 0 {
 				res.probe("leftover_of_interrupted_transfer", 1)
 			}
+			continue
+		case "bigchain":
+			// Variant commits on op.Branch, each with a table of its own (built through the library,
+			// not the CLI): a push of the branch then has to negotiate more tables than fit one round trip
+			if op.Node == "R" || !validBranch || op.Variant < 1 || op.Variant > 1200 {
+				res.Invalid("bigchain")
+				return
+			}
+			db, err := n.OpenRef()
+			if err != nil {
+				res.Invalid("%v", err)
+				return
+			}
+			parent, _ := ref.GetHead(db, op.Branch)
+			for k := 0; k < op.Variant; k++ {
+				tcols, trows := []string{"id", "v"}, [][]string{{fmt.Sprintf("%d", k), fmt.Sprintf("chain-%d-%d", i, k)}}
+				srt, err := sorter.NewSorter()
+				if err != nil {
+					db.Close()
+					res.Invalid("%v", err)
+					return
+				}
+				tsum, err := ingest.IngestTable(n.Objs, srt, io.NopCloser(bytes.NewReader(CSVText(tcols, trows, ','))), []string{"id"}, logr.Discard(), ingest.WithNumWorkers(1))
+				if err != nil {
+					db.Close()
+					res.Invalid("bigchain ingest: %v", err)
+					return
+				}
+				com := &objects.Commit{Table: tsum, AuthorName: "big", AuthorEmail: "big@x", Message: fmt.Sprintf("chain %d", k), Time: bubbleEpoch.Add(n.Clock + time.Duration(k)*time.Second)}
+				if parent != nil {
+					com.Parents = [][]byte{parent}
+				}
+				var cb bytes.Buffer
+				com.WriteTo(&cb)
+				csum, err := objects.SaveCommit(n.Objs, cb.Bytes())
+				if err != nil {
+					db.Close()
+					res.Invalid("%v", err)
+					return
+				}
+				parent = csum
+			}
+			ref.CommitHead(db, op.Branch, parent, &objects.Commit{AuthorName: "big", AuthorEmail: "big@x", Message: "chain"}, nil)
+			db.Close()
+			n.Objs.TakeMonErrs()
+			res.probe("big_chain_of_tables", 1)
 			continue
 		case "rcopy":
 			// a third party resets a branch of the remote to where another branch is (force push by someone else)
